@@ -22,6 +22,10 @@ Sub-checks
              (9 operations x k 1..6 x codes 1..28 x 5 units x 2 namespaces)
              and pairs "fault that starts a recovery path + fault in it"
   mock       FakedWBEMConnection.compile_mof_string
+  atheris    (thorough tier) coverage-guided libFuzzer campaign on MOF text,
+             8 processes, seeds = repository test MOF + explicit minimal
+             inputs + keyword dictionary, shard 0 from an empty corpus; crash
+             and timeout artifacts are judged by the 'strings' oracle
   termination (finite list) inputs with super-linear risk
 
 Oracle (all sub-checks): the call terminates within TIMEOUT seconds; the
@@ -147,6 +151,14 @@ SENSITIVITY = [
     "resolution of the file name (seeded change2) -> files/leak:"
     "RecursionError:include-cycle (missed at first: all generated includes "
     "resolved directly; the searchgraph structure was added)",
+    "atheris sub-check (thorough): with fixes e8fc8c2, 548ce5d and 7276afb "
+    "reverted in a scratch worktree, libFuzzer started from the repository "
+    "test MOF files and the keyword dictionary only reaches the hex-escape "
+    "IndexError and the namespace-pragma AttributeError within 65 000 - "
+    "95 000 executions (3 of 3 seeds); from an empty corpus without "
+    "dictionary 300 000 executions reach neither (both need a syntactically "
+    "valid declaration around the defect): the seeded corpus is what makes "
+    "the campaign useful, the empty-corpus shard is kept as a control",
 ]
 
 TIMEOUT = 10
@@ -1918,6 +1930,26 @@ def termination_replay(ctx, ex):
     termination_oracle(ctx, ex)
 
 
+def atheris_campaign(ctx, shard, nshards):
+    """
+    Coverage-guided campaign on MOF text (thorough tier; pbt/fuzzlib.py,
+    pbt/fuzz_c09.py): one libFuzzer process per shard, artifacts come back
+    through atheris_replay() = the 'strings' oracle.
+    """
+    from . import fuzz_c09, fuzzlib
+    fuzzlib.campaign(ctx, shard, 'pbt.fuzz_c09', fuzz_c09.seed_corpus,
+                     atheris_replay, max_len=6000,
+                     dictionary=fuzz_c09.DICTIONARY, timeout=TIMEOUT + 15)
+
+
+def atheris_replay(ctx, example):
+    from . import fuzz_c09
+    ctx.current = example
+    text = fuzz_c09.text_from_bytes(bytes.fromhex(example[1]))
+    string_oracle(ctx, dict(text=text, ns=None, muts=('atheris',),
+                            src='text'))
+
+
 SUBCHECKS = [
     Sub('strings', strategy=strings_strategy, oracle=string_oracle,
         quick=(16, 600), thorough=(16, 12000), case_timeout=60),
@@ -1930,7 +1962,10 @@ SUBCHECKS = [
         quick=(8, 150), thorough=(16, 3000), case_timeout=90),
     Sub('termination', enumerate=termination_enumerate, quick=(8, 0),
         thorough=(8, 0)),
+    Sub('atheris', enumerate=atheris_campaign, quick=(0, 0),
+        thorough=(8, 0), budget=(0, 900)),
 ]
+SUBCHECKS[6].replay = atheris_replay
 SUBCHECKS[1].replay = typed_replay
 SUBCHECKS[3].replay = repofault_replay
 SUBCHECKS[5].replay = termination_replay
